@@ -272,3 +272,45 @@ Example live_example :
    ObsBounds (Some (100000000001, 100000000401)); ObsRead (ROk [(100000000401, 3)]);
    ObsRead (ROk [(100000000001, 1); (100000000400, 2)]); ObsWrite false; ObsRead (ROk [(100000000401, 3)])].
 Proof. vm_compute. reflexivity. Qed.
+
+(* ------------------------------------------------------------------ writer sessions *)
+Lemma run_writes_app a c h1 h2 :
+  run_writes a c (h1 ++ h2) = fold_left (fun st l => fst (write_call a c st l)) h2 (run_writes a c h1).
+Proof. unfold run_writes. apply fold_left_app. Qed.
+
+Lemma run_sessions_gen c ss : forall h bad,
+  run_sessions (mkFs c (run_writes Exact c h) bad) ss =
+  mkFs c (run_writes Exact c (h ++ accepted_calls c ss)) bad.
+Proof.
+  induction ss as [|[c' calls] ss IH]; intros h bad; cbn [run_sessions accepted_calls flat_map fst snd].
+  - rewrite app_nil_r. reflexivity.
+  - unfold open_writer. cbn [f_props f_ents f_bad].
+    destruct (cfg_eqb c c').
+    + rewrite <- run_writes_app. rewrite IH. rewrite <- app_assoc. reflexivity.
+    + cbn [app]. apply IH.
+Qed.
+
+(* whatever parameters later sessions are opened with, the channel keeps the parameters it was
+   created with and its directory is the result of the calls of the sessions that were accepted
+   (those opened with identical parameters), all placed by the one rule of those parameters *)
+Theorem sessions_keep_one_rule c ss :
+  run_sessions (mkFs c [] []) ss = mkFs c (run_writes Exact c (accepted_calls c ss)) [].
+Proof. apply (run_sessions_gen c ss [] []). Qed.
+
+Lemma cfg_eqb_eq a b : cfg_eqb a b = true <-> a = b.
+Proof.
+  destruct a as [n1 d1 f1 s1], b as [n2 d2 f2 s2]. unfold cfg_eqb. cbn.
+  rewrite !andb_true_iff, !Z.eqb_eq. split.
+  - intros [[[-> ->] ->] ->]. reflexivity.
+  - intros H. inversion H. auto.
+Qed.
+
+(* a session opened with any different parameter is refused and leaves the tree untouched *)
+Theorem mismatched_session_refused fs c' calls :
+  c' <> f_props fs -> open_writer fs c' = None /\ run_sessions fs [(c', calls)] = fs.
+Proof.
+  intros Hne. unfold open_writer. cbn [run_sessions]. unfold open_writer.
+  destruct (cfg_eqb (f_props fs) c') eqn:E.
+  - apply cfg_eqb_eq in E. congruence.
+  - split; reflexivity.
+Qed.
